@@ -10,6 +10,10 @@ fn main() {
         s.split(',').map(|x| x.trim().to_lowercase()).collect()
     });
     println!("cargo:rerun-if-env-changed=VERIF_ONLY");
+    println!("cargo::rustc-check-cfg=cfg(verif_all)");
+    if only.is_none() {
+        println!("cargo:rustc-cfg=verif_all");
+    }
     println!("cargo:rerun-if-changed=src/props");
     println!("cargo:rerun-if-changed=src/common");
     let mut out = String::new();
